@@ -15,10 +15,12 @@ KANI_FLAGS = [
 MEM_CAP_BYTES = int(os.environ.get("VERIF_KANI_MEM_GB", "40")) * (1 << 30)
 
 
-def _env(target):
+def _env(target, fragile=True):
     e = dict(os.environ)
     e["CARGO_TARGET_DIR"] = target
-    e["RUSTFLAGS"] = "--cap-lints=warn"
+    # `verif_fragile` enables harnesses that call PRIVATE helpers by name (they stop compiling when a helper's signature
+    # changes); if the crate does not build with them the group is rebuilt without (those obligations become undecided)
+    e["RUSTFLAGS"] = "--cap-lints=warn" + (" --cfg verif_fragile" if fragile else "")
     e["CARGO_NET_OFFLINE"] = "true"
     e.pop("RUSTC_WRAPPER", None)
     return e
@@ -185,13 +187,18 @@ def run_many(scratch, jobs, logdir, parallel):
             cmd += ["--harness", j["harness"]]
         t0 = time.time()
         total_to = hto * (1 + len(js) // max(1, parallel)) + 900
-        try:
-            p = subprocess.run(cmd, cwd=scratch.repo, env=_env(scratch.target), stdout=subprocess.PIPE,
-                               stderr=subprocess.STDOUT, text=True, timeout=total_to, preexec_fn=_limit)
-            out = p.stdout
-        except subprocess.TimeoutExpired as e:
-            out = e.stdout.decode("utf-8", "replace") if isinstance(e.stdout, bytes) else (e.stdout or "")
-            subprocess.run(["pkill", "-f", "cbmc"], check=False)
+        out = ""
+        for fragile in (True, False):
+            try:
+                p = subprocess.run(cmd, cwd=scratch.repo, env=_env(scratch.target, fragile), stdout=subprocess.PIPE,
+                                   stderr=subprocess.STDOUT, text=True, timeout=total_to, preexec_fn=_limit)
+                out = p.stdout
+            except subprocess.TimeoutExpired as e:
+                out = e.stdout.decode("utf-8", "replace") if isinstance(e.stdout, bytes) else (e.stdout or "")
+                subprocess.run(["pkill", "-f", "cbmc"], check=False)
+            if os.path.exists(jpath) or "could not compile" not in out:
+                break
+            # build failure: retry once without the fragile harnesses
         wall = time.time() - t0
         with open(os.path.join(logdir, "kani_%s.log" % tag), "w") as fh:
             fh.write("$ " + " ".join(cmd) + "\n" + out)
